@@ -219,18 +219,15 @@ def run_driver(outdir, timeout=7200):
         for _ in f:
             nlines += 1
     jobs = max(1, min(os.cpu_count() or 1, 16, nlines // 2000 + 1))
-    size = (nlines + jobs - 1) // jobs if nlines else 0
-    parts = []
+    # line i goes to part i mod jobs: expensive requests come in runs (one pattern, many haystacks), and
+    # contiguous chunks would leave one process with all of them
+    parts = [os.path.join(outdir, "req.%d.part" % j) for j in range(jobs)]
+    outs = [open(pth, "wb") for pth in parts]
     with open(reqp, "rb") as f:
-        for j in range(jobs):
-            pin = os.path.join(outdir, "req.%d.part" % j)
-            with open(pin, "wb") as g:
-                for _ in range(size):
-                    line = f.readline()
-                    if not line:
-                        break
-                    g.write(line)
-            parts.append(pin)
+        for i, line in enumerate(f):
+            outs[i % jobs].write(line)
+    for o in outs:
+        o.close()
     procs = []
     for j, pin in enumerate(parts):
         pout = os.path.join(outdir, "lean.%d.part" % j)
@@ -247,12 +244,18 @@ def run_driver(outdir, timeout=7200):
         if p.returncode not in (0, None) and rc == 0:
             rc = p.returncode
         err += e.decode(errors="replace")[-2000:]
+    ins = [open(pout, "rb") for _, _, pout in procs]
     with open(os.path.join(outdir, "lean.txt"), "wb") as fout:
-        for _, pin, pout in procs:
-            with open(pout, "rb") as g:
-                shutil.copyfileobj(g, fout)
-            os.remove(pin)
-            os.remove(pout)
+        for i in range(nlines):
+            line = ins[i % jobs].readline()
+            if not line:
+                break
+            fout.write(line)
+    for fh in ins:
+        fh.close()
+    for _, pin, pout in procs:
+        os.remove(pin)
+        os.remove(pout)
     return rc, err
 
 
